@@ -166,8 +166,8 @@ func runC01(c *core.Ctx) {
 func inputLens(n int) []int {
 	set := map[int]bool{}
 	var out []int
-	for _, l := range []int{0, 1, n - 1, n, n + 1, 2*n + 3} {
-		if l >= 0 && !set[l] {
+	for _, l := range []int{-1, 0, 1, n - 1, n, n + 1, 2*n + 3} { // -1: nil slice
+		if l >= -1 && !set[l] {
 			set[l] = true
 			out = append(out, l)
 		}
@@ -190,7 +190,7 @@ func c01Case(c *core.Ctx, p *dyn.PairOps, sh c01shape, r *core.Rand, caseID stri
 			w := a.Window(sh.s, sh.e, sh.extra, il)
 			src := mon.NewSl(A, il, func(i int) dyn.Val { return commonVal(r, A.TypeInfo, B.TypeInfo) })
 			before := mon.ShapeOf(w.B)
-			n := min(winLen, il)
+			n := min(winLen, max(il, 0))
 			d := map[string]any{"fn": "Write" + pairName, "shape": shapeD, "input_len": il, "buffer_len": winLen}
 			c.Eval(1)
 			if n > 0 {
@@ -228,7 +228,7 @@ func c01Case(c *core.Ctx, p *dyn.PairOps, sh c01shape, r *core.Rand, caseID stri
 			}
 			dst := mon.NewSl(B, il, func(i int) dyn.Val { return mon.Canary(B.TypeInfo, i, 99) })
 			before := mon.ShapeOf(w.B)
-			n := min(winLen, il)
+			n := min(winLen, max(il, 0))
 			d := map[string]any{"fn": "Read" + pairName, "shape": shapeD, "output_len": il, "buffer_len": winLen}
 			c.Eval(1)
 			if n > 0 {
